@@ -97,7 +97,7 @@ def seq_lrepr(
     with the start and end string supplied. The keyword arguments will be
     passed along to lrepr for the sequence elements."""
     print_level = kwargs["print_level"]
-    if isinstance(print_level, int) and print_level < 1:
+    if not kwargs["print_dup"] and isinstance(print_level, int) and print_level < 1:
         return SURPASSED_PRINT_LEVEL
 
     kwargs = process_lrepr_kwargs(**kwargs)
